@@ -786,6 +786,12 @@ def _assign_conv(stmts: List[ast.stmt], target: ast.expr, at: ast.stmt) -> Optio
         for i, st in enumerate(ss):
             rest = ss[i + 1:]
             if isinstance(st, ast.Return):
+                tnames = [e.id for e in target.elts] if isinstance(target, ast.Tuple) else []
+                if isinstance(target, ast.Tuple) and isinstance(st.value, ast.Tuple) and len(st.value.elts) == len(target.elts) and not any(isinstance(y, ast.Name) and y.id in tnames for y in ast.walk(st.value)):
+                    # (a, b) = (x, y) with x, y not reading a, b: a = x; b = y - flags and values are then plain locals
+                    for t_, v_ in zip(target.elts, st.value.elts):
+                        out.append(_fresh(ast.copy_location(ast.Assign(targets=[clone_ast(t_)], value=v_, type_comment=None), at)))
+                    return out
                 a_ = ast.copy_location(ast.Assign(targets=[clone_ast(target)], value=st.value, type_comment=None), at)
                 out.append(_fresh(a_))
                 return out
